@@ -301,6 +301,30 @@ func (l *ledger) step(rng *rand.Rand, out *Out) {
 		nd.Momentum() // the mock's own producer also generates the contract receive
 		l.record()
 		out.Count("history:delegate")
+	case 4:
+		// every backer of one pillar leaves it: a registered, active pillar with delegated weight exactly zero
+		// (it still gets slots; its stored election entry has an empty weight)
+		if rng.Intn(3) == 0 {
+			name := []string{g.Pillar1Name, g.Pillar2Name, g.Pillar3Name}[rng.Intn(3)]
+			if dl, err := definition.GetDelegationsList(nd.Ch.GetFrontierAccountStore(types.PillarContract).Storage()); err == nil {
+				n := 0
+				for _, d := range dl {
+					if d.Name != name {
+						continue
+					}
+					if kp := KeyOf(d.Backer); kp != nil {
+						nd.Z.InsertSendBlock(&nom.AccountBlock{Address: kp.Address, ToAddress: types.PillarContract,
+							Data: definition.ABIPillars.PackMethodPanic(definition.UndelegateMethodName)}, nil, mock.SkipVmChanges)
+						n++
+					}
+				}
+				if n > 0 {
+					nd.Momentum()
+					l.record()
+					out.Count("history:pillar-drained-of-all-backers")
+				}
+			}
+		}
 	case 3:
 		if rng.Intn(3) == 0 {
 			u := backers[rng.Intn(len(backers))]
